@@ -241,6 +241,8 @@ def real(lang, nodes, data):
 
 
 def same(a, b):
+    if a[0] == 'invalid' or b[0] == 'invalid':
+        return True      # not a template of the grammar: no statement
     """equal outputs; two failing renders count as equal whatever the exception class (which
     expression fails first is not part of the documented semantics)"""
     if a[0] == 'err' and b[0] == 'err':
@@ -259,10 +261,14 @@ def oracle_case(case, doc=None):
     if case['check'] == 'raw':
         # a template given by its source (shapes the AST cannot express) with the documented output
         got = real_raw(case['lang'], [['raw', case['source']]], case['data'])
-        if got != case['expected']:
+        if got[0] != 'invalid' and got != case['expected']:
             return bad(case.get('what', 'documented output'), case['expected'], got)
         return None
     lang, nodes, data, check = case['lang'], case['nodes'], case['data'], case['check']
+    if not (G.valid_nodes(nodes, lang) and G.valid_data(data)):
+        return None          # not a case of the grammar (shrinking went too far)
+    if lang == 'oldtext' and G.fix_old(nodes)[0] != nodes:
+        return None
 
     base = real(lang, nodes, data)
     if check == 'elemform':
@@ -314,6 +320,8 @@ def oracle_case(case, doc=None):
         probe = [['raw', ''.join("[${defined('%s')}|${%s}]" % (nm, nm) for nm in names)]]
         alone = real_raw(lang, probe, data)
         both = real_raw(lang, nodes + probe, data)
+        if alone[0] == 'invalid' or both[0] == 'invalid':
+            return None
         if alone[0] != 'ok' or both[0] != 'ok':
             return bad('probe of %s after the template renders' % names, alone, both)
         exp = G.norm_events_merge(base[1] + alone[1])
@@ -347,8 +355,15 @@ def real_raw(lang, nodes, data):
         with warnings.catch_warnings():
             warnings.simplefilter('ignore')
             tmpl = cls(src, lookup='lenient')
+    except Exception as e:   # noqa
+        return ['invalid', type(e).__name__]
+    try:
+        with warnings.catch_warnings():
+            warnings.simplefilter('ignore')
             ev = G.norm_events(tmpl.generate(**G.data_kwargs(data)))
     except Exception as e:   # noqa
+        if type(e).__name__ in G.INVALID:
+            return ['invalid', type(e).__name__]
         return ['err', type(e).__name__]
     if lang == 'markup':
         ev = G.unroot(ev)
@@ -669,8 +684,8 @@ def shard(arg):
                 res.count('impl:unmodelled')
             else:
                 res.streams['impl-render'] = res.streams.get('impl-render', 0) + 1
-                b2 = base if base[0] == 'ok' else ['err', ERRMAP.get(base[1], base[1])]
-                if impl != b2:
+                b2 = base if base[0] != 'err' else ['err', ERRMAP.get(base[1], base[1])]
+                if base[0] != 'invalid' and impl != b2:
                     res.disagreements.append({'stream': 'impl-render', 'case': c, 'model': repr(impl)[:600],
                                               'real': repr(b2)[:600], 'source': G.source(c['lang'], c['nodes'])})
     res.samples = [{'lang': c['lang'], 'source': G.source(c['lang'], c['nodes']), 'data': c['data']} for c in cases[:2]]
@@ -679,7 +694,7 @@ def shard(arg):
 
 def run(ctx):
     nsh = 16
-    per = ctx.n(250, 6000)
+    per = ctx.n(250, 3000)
     res = Result()
     for r in pmap('harness.props.c04', 'shard', [(ctx.seed, i, per, True) for i in range(nsh)]):
         res.merge(r)
